@@ -131,6 +131,7 @@ type run struct {
 	everRev  map[string]bool
 	everHeld map[string]string
 	reported map[string]bool
+	dropped  map[string]string // transaction -> transient cause the receiver answered with a dropped job (already reported)
 	stepNo   int
 }
 
@@ -392,6 +393,9 @@ func (r *run) judge(o observation) {
 		if !isCred || !r.deliv[t] || !tab.valid(t) || !r.resolvable(t) || r.jobState[t] == "retry" {
 			continue
 		}
+		if r.dropped[t] != "" && r.dropped[t] == r.lastCls[t] && !present[row.ID] {
+			continue // consequence of the dropped transient failure that was reported when the receiver answered
+		}
 		contested := false
 		for _, d := range r.txs {
 			if d != t && r.deliv[d] && tab.C[d].ID == row.ID && tab.valid(d) {
@@ -421,8 +425,8 @@ func (r *run) judge(o observation) {
 				continue
 			}
 			authentic = true
-			if r.c.known[row.Iss] && r.jobState[t] != "retry" {
-				owed = t
+			if r.c.known[row.Iss] && r.jobState[t] != "retry" && !(r.dropped[t] != "" && r.dropped[t] == r.lastCls[t]) {
+				owed = t // (not owed: the consequence of a dropped transient failure that was reported when the receiver answered)
 			}
 		}
 		if rev && !authentic {
@@ -567,7 +571,7 @@ func classifyErr(msg string) string {
 		return "ctxdenied"
 	case strings.Contains(msg, "loading remote context failed"), strings.Contains(msg, "loading document failed"):
 		return "ctxdown"
-	case strings.Contains(msg, "validation failed") && !strings.Contains(msg, "'proof' is required"):
+	case strings.Contains(msg, "validation failed") && !strings.Contains(msg, "'proof' is required"), strings.Contains(msg, "must list at most 2 types"):
 		return "malformed"
 	case strings.Contains(msg, "verification method is not of issuer"), strings.Contains(msg, "invalid signature"), strings.Contains(msg, "invalid proof signature"),
 		strings.Contains(msg, "unable to verify revocation signature"), strings.Contains(msg, "not valid at"), strings.Contains(msg, "key not found"),
@@ -582,11 +586,13 @@ func classifyErr(msg string) string {
 // armed: the number of store faults the step armed per shelf.
 func (r *run) absorb(evName string, calls []call, faultHit bool) (plain int) {
 	tab := r.c.tab
+	async := 0
 	defer func() {
-		if evName != "retry-async" && plain > 0 {
-			r.settle(plain)
+		if evName != "retry-async" && plain-async > 0 {
+			r.settle(plain - async)
 		}
 	}()
+	inBatch := map[string]bool{}
 	for _, cl := range calls {
 		t, ok := r.c.byRef[cl.Ref]
 		if !ok {
@@ -617,11 +623,20 @@ func (r *run) absorb(evName string, calls []call, faultHit bool) (plain int) {
 		name := evName
 		if name == "retry-async" {
 			name = "retry"
+		} else if inBatch[t] {
+			// the second call for one transaction inside a step is the immediate attempt of the retry goroutine
+			name = "retry"
+			async++
+			if job == "retry" {
+				plain--
+			}
 		}
+		inBatch[t] = true
 		r.res.Trace = append(r.res.Trace, map[string]any{"ev": name, "t": t, "f": f, "job": job, "res": cls})
 		// subscriber semantics
 		transient := cls == "fault" || cls == "ctxdown" || cls == "nokey"
 		if transient && job != "retry" {
+			r.dropped[t] = cls
 			r.violate("transient-failure-dropped", cls, fmt.Sprintf("%s of %s: the receiver answered %q with job state %s", evName, t, cl.Err, job))
 		}
 		permanent := false
@@ -767,20 +782,19 @@ func (r *run) exec() (err error) {
 			r.disarm()
 			r.deliv[t] = true
 			calls := w.NR.net.takeCalls()
-			n := 0
+			subs := map[string]bool{} // (the same receiver may be called again at once by the retry goroutine)
 			for _, cl := range calls {
 				if r.c.byRef[cl.Ref] == t {
-					n++
+					subs[cl.Sub] = true
 				}
 			}
-			if n != 1 {
-				r.violate("subscriber-selection", "count", fmt.Sprintf("payload event of %s reached %d receivers", t, n))
+			if len(subs) != 1 {
+				r.violate("subscriber-selection", "count", fmt.Sprintf("payload event of %s reached %d receivers", t, len(subs)))
 			}
 			r.absorb("deliver", calls, r.hits() > h0)
 		case "Retry":
 			if r.jobState[t] != "retry" {
-				r.res.Drift = append(r.res.Drift, fmt.Sprintf("step %d: Retry(%s) but the job is %q", i, t, r.jobState[t]))
-				continue
+				continue // the real job is not waiting for a retry (the code answered otherwise than the script assumed)
 			}
 			if st.flag("f") {
 				w.NR.fl.arm(r.shelfOf(t), 1)
@@ -865,7 +879,7 @@ func (r *run) exec() (err error) {
 func runRecv(w *world, in input, sc script) result {
 	res := result{ID: sc.ID, Violations: []violation{}, Drift: []string{}}
 	r := &run{w: w, in: in, sc: sc, res: &res, trustRef: map[string]bool{}, deliv: map[string]bool{}, jobState: map[string]string{}, lastCls: map[string]string{},
-		everRev: map[string]bool{}, everHeld: map[string]string{}, reported: map[string]bool{}}
+		everRev: map[string]bool{}, everHeld: map[string]string{}, reported: map[string]bool{}, dropped: map[string]string{}}
 	if err := r.exec(); err != nil {
 		res.Error = err.Error()
 	}
@@ -914,10 +928,10 @@ func TestDriver(t *testing.T) {
 		var r result
 		select {
 		case r = <-done:
-		case <-time.After(45 * time.Second):
+		case <-time.After(20 * time.Second):
 			buf := make([]byte, 1<<20)
 			buf = buf[:runtime.Stack(buf, true)]
-			r = result{ID: sc.ID, Violations: []violation{}, Drift: []string{}, Error: "script did not return within 45 s; stuck goroutines:\n" + stuckFrames(string(buf))}
+			r = result{ID: sc.ID, Violations: []violation{}, Drift: []string{}, Error: "script did not return within 20 s; stuck goroutines:\n" + stuckFrames(string(buf))}
 			w = newWorld(t)
 		}
 		if err := enc.Encode(r); err != nil {
